@@ -202,6 +202,7 @@ func RunUciScript(sc *Scenario) *UciRunOut {
 	}
 
 	wantBest, wantReady := 0, 0
+	var prevHist []HistLine
 	var gp guiPos
 	gp.pos = rules.MustFen(rules.StartFen) // the engine starts on the start position
 	gp.valid = true
@@ -335,6 +336,28 @@ func RunUciScript(sc *Scenario) *UciRunOut {
 				_, r, _ := us.Counts()
 				wantReady = r
 			}
+		case "fresh_engine":
+			// end this engine (stop, quit) and continue with a brand-new handler
+			if send(i, "stop") {
+				settle()
+			}
+			for k := 0; k < 400; k++ {
+				b, _, _ := us.Counts()
+				if b >= wantBest {
+					break
+				}
+				sim.ActorSleep(offGUI, 5_000_000)
+			}
+			if send(i, "quit") {
+				settle()
+			}
+			DrainEngine(sim, offGUI)
+			prev := us.History()
+			prevHist = append(prevHist, prev...)
+			prevHist = append(prevHist, HistLine{Seq: len(prevHist) + 1, T: sim.Now(), In: true, Text: "#fresh_engine"})
+			us = NewUciSession(sim)
+			wantBest, wantReady = 0, 0
+			gp.pos, gp.valid = rules.MustFen(rules.StartFen), true
 		case "sleep":
 			// gap only
 		}
@@ -356,7 +379,10 @@ func RunUciScript(sc *Scenario) *UciRunOut {
 		out.EndPending = true
 	}
 	checkLoop(len(sc.Steps), "stop")
-	out.Hist = us.History()
+	out.Hist = append(prevHist, us.History()...)
+	for i := range out.Hist {
+		out.Hist[i].Seq = i + 1
+	}
 	if send(len(sc.Steps)+1, "quit") {
 		settle()
 		ended, _ := us.LoopEnded()
